@@ -18,6 +18,7 @@ import StirVerif.C03.ProofsCache
 import StirVerif.C03.ProofsZ
 import StirVerif.C03.ProofsMisc
 import StirVerif.C03.ProofsLOR
+import StirVerif.C03.ProofsInterp
 
 namespace StirVerif.C03
 
@@ -263,13 +264,44 @@ theorem C03_cacheKey_injective (b b' : Bin) (hb : InBox b) (hb' : InBox b') (h :
     `get | clear_cache | enable_cache | store_only_basic_bins_in_cache | set_* | set_up` on a new object, every row
     handed out is `(findSymOp b).onRow (compute (basic b))` — bin included — for the geometry and parameters the last
     `set_up` call asked for.  A geometry is what `set_up` compares: projection data, voxel size, origin and index
-    range of the image.  `Req`: requested bins lie in the view range and in the key box. -/
+    range of the image.  `Req`: requested bins lie in the view range and in the key box.
+    (`Params` includes `actualBoundaries` = `set_use_actual_detector_boundaries`, which — like the number of rays and the
+    FOV shape — reaches the rows only through `compute`; since the extension of the check the correspondence run
+    toggles it in the histories, and TOF data with view/TOF mashing, even spans and cut-off outer segments are among the
+    geometries `G` the histories switch between, so this theorem now speaks about that code as well.) -/
 theorem C03_cache_refines {G α : Type} [DecidableEq G] (w : World G α) (hWF : ∀ g p, (w.symOf g p).WF)
     (p0 : Params) (evs : List (Ev G))
     (hreq : ∀ x ∈ (PM.fresh p0 : PM G α).run w none evs, Req w x) :
     ∀ x ∈ (PM.fresh p0 : PM G α).run w none evs, Refines w x :=
   run_refines w hWF evs (PM.fresh p0) none
     ⟨rfl, fun h => absurd h (by simp [PM.fresh]), fun g p h => absurd h (by simp [PM.fresh])⟩ hreq
+
+/-- the same **for `ProjMatrixByBinUsingInterpolation`** (an anchor file of the property): same base class and cache, but its
+    `set_up` has no `already_setup` short cut (`PM.setUpInterp`).  Every history on it *is* a history of the model above:
+    the one with `set_* (other value); set_* (back)` inserted before each `set_up` (`interpEvents`), which is how
+    `already_setup` gets switched off there — same rows, same recorded configurations. -/
+theorem C03_interpolation_history_is_raytracing_history {G α : Type} [DecidableEq G] (w : World G α) (s : PM G α)
+    (cfg : Option (G × Params)) (evs : List (Ev G)) :
+    s.runInterp w cfg evs = s.run w cfg (interpEvents s.params evs) :=
+  runInterp_eq w evs s cfg
+
+/-- … hence "with caching disabled, restricted to basic bins or complete, for any order and repetition of requests, and
+    after clearing the cache or setting the matrix up again for another geometry" for the interpolating matrix: every row
+    handed out in any history is `(findSymOp b).onRow (compute (basic b))` for the configuration of the last `set_up` -/
+theorem C03_cache_refines_interpolation {G α : Type} [DecidableEq G] (w : World G α) (hWF : ∀ g p, (w.symOf g p).WF)
+    (p0 : Params) (evs : List (Ev G))
+    (hreq : ∀ x ∈ (PM.fresh p0 : PM G α).runInterp w none evs, Req w x) :
+    ∀ x ∈ (PM.fresh p0 : PM G α).runInterp w none evs, Refines w x := by
+  rw [runInterp_eq] at hreq ⊢
+  exact C03_cache_refines w hWF p0 _ hreq
+
+/-- the two `set_up`s really differ: a second `set_up` for the same geometry and parameters leaves the cache of a
+    ray-tracing matrix alone (early return) and empties that of an interpolating matrix -/
+theorem C03_setUp_short_cut_only_in_raytracing :
+    ((PM.fresh pDefault : PM Bool Nat).after (PM.step wRange) [.setUp true, .get ⟨0, 0, 0, 0, 0⟩, .setUp true]).map
+        (fun s => s.cache.length) = some 1 ∧
+    ((PM.fresh pDefault : PM Bool Nat).after (PM.stepInterp wRange) [.setUp true, .get ⟨0, 0, 0, 0, 0⟩, .setUp true]).map
+        (fun s => s.cache.length) = some 0 := by decide
 
 /-- the case repaired in `ProjMatrixByBinUsingRayTracing::set_up`: after `set_up` for an image that differs from the
     previous one in its index range only, rows are those of the new image (value 1), and a third `set_up` with the
@@ -312,6 +344,28 @@ example : (∀ g p, (wGood.symOf g p).WF) ∧
        (⟨1, 2, 0, 1, 0⟩, some (false, pDefault)), (⟨-1, 6, 2, -1, 0⟩, some (true, pDefault)),
        (⟨1, 5, 1, -1, 0⟩, some (true, pDefault))] := by decide
   have h2 : (x.1, x.2.1) ∈ ((PM.fresh pDefault : PM Bool Nat).run wGood none evsGood).map (fun x => (x.1, x.2.1)) :=
+    List.mem_map_of_mem hx
+  rw [h1] at h2
+  simp only [List.mem_cons, List.mem_singleton, List.not_mem_nil, or_false, Prod.mk.injEq] at h2
+  rcases h2 with ⟨hb, hc⟩ | ⟨hb, hc⟩ | ⟨hb, hc⟩ | ⟨hb, hc⟩ | ⟨hb, hc⟩ <;>
+    exact ⟨_, _, hc, by rw [hb]; exact hg _ (by simp)⟩
+
+/-- the hypotheses of `C03_cache_refines_interpolation` are satisfiable by the same history run on an interpolating matrix:
+    five rows, all requests legitimate; the corresponding ray-tracing history has two parameter flips per `set_up` -/
+example : ((PM.fresh pDefault : PM Bool Nat).runInterp wGood none evsGood).length = 5 ∧
+    (interpEvents pDefault evsGood).length = evsGood.length + 4 ∧
+    (∀ x ∈ (PM.fresh pDefault : PM Bool Nat).runInterp wGood none evsGood, Req wGood x) := by
+  refine ⟨by decide, by decide, ?_⟩
+  intro x hx
+  have hg : ∀ b ∈ [(⟨-1, 6, 2, -1, 0⟩ : Bin), ⟨1, 2, 0, 1, 0⟩, ⟨1, 5, 1, -1, 0⟩], Good ySample b := by
+    intro b hb
+    simp only [List.mem_cons, List.mem_singleton, List.not_mem_nil, or_false] at hb
+    rcases hb with rfl | rfl | rfl <;> exact ⟨by decide, ⟨by decide, by decide, by decide⟩, Or.inl rfl⟩
+  have h1 : ((PM.fresh pDefault : PM Bool Nat).runInterp wGood none evsGood).map (fun x => (x.1, x.2.1)) =
+      [(⟨-1, 6, 2, -1, 0⟩, some (false, pDefault)), (⟨-1, 6, 2, -1, 0⟩, some (false, pDefault)),
+       (⟨1, 2, 0, 1, 0⟩, some (false, pDefault)), (⟨-1, 6, 2, -1, 0⟩, some (true, pDefault)),
+       (⟨1, 5, 1, -1, 0⟩, some (true, pDefault))] := by decide
+  have h2 : (x.1, x.2.1) ∈ ((PM.fresh pDefault : PM Bool Nat).runInterp wGood none evsGood).map (fun x => (x.1, x.2.1)) :=
     List.mem_map_of_mem hx
   rw [h1] at h2
   simp only [List.mem_cons, List.mem_singleton, List.not_mem_nil, or_false, Prod.mk.injEq] at h2
